@@ -162,3 +162,22 @@ Proof.
   - intros c' Hne. destruct (R c') as [E|E]; [left | right; exact E].
     rewrite E. unfold H4. rewrite gcmd_ucmd_other by congruence. reflexivity.
 Qed.
+
+(* ---------- command-level abort: run_until_settled of an aborted command ---------- *)
+(* `self.tasks.clear(); return`: the tasks of the aborted command are dropped; every OTHER command's task table is left
+   alone or - for the commands hosted below the aborted one, which are dropped with their hosting futures - emptied. *)
+Theorem aborted_settle_contained : forall f x H H',
+  was_aborted x H = true -> settle (S f) x H = Some H' ->
+  forall c', c_ent (gcmd c' H') = c_ent (gcmd c' H) \/ c_ent (gcmd c' H') = [].
+Proof.
+  intros f x H H' A E. unfold settle in E. cbn [funs step_funs rsettle] in E. unfold settle_body in E. rewrite A in E.
+  inversion E; subst; clear E.
+  assert (R : Rent H (note B_AbortClear
+     (fold_left (fun Hh e => match e with Occ t => kill_flag (t_uid t) (drop_fs (dfuel Hh) (t_fs t) Hh) | Vac _ => Hh end)
+                (c_ent (gcmd x H)) (ucmd x slab_clear H)))).
+  { eapply Rent_trans; [|apply Rent_same; reflexivity].
+    eapply Rent_trans; [|apply (Rent_fold (fun Hh e => match e with Occ t => kill_flag (t_uid t) (drop_fs (dfuel Hh) (t_fs t) Hh) | Vac _ => Hh end))].
+    - apply Rent_ucmd. intros cm. right. destruct cm; reflexivity.
+    - intros e Hh. destruct e; [|apply Rent_refl]. eapply Rent_trans; [apply (proj1 (Rent_drop (dfuel Hh))) | apply Rent_kill_flag]. }
+  exact R.
+Qed.
